@@ -89,26 +89,15 @@ theorem mutual_exclusion (safe : cfg.Safe) {s : State} (r : Reachable cfg s) {i 
 none is skipped, and while a thread is in the body it is exactly that thread's prefix. -/
 theorem data_is_prefix (safe : cfg.Safe) {s : State} (r : Reachable cfg s) :
     ∃ k, k ≤ cfg.writes ∧ s.data = List.range k := by
-  have inv := inv_reachable safe r
-  cases hm : s.mutex with
-  | none =>
-    rcases inv.free_q hm with h | h
-    · exact ⟨0, Nat.zero_le _, by simp [h.1]⟩
-    · exact ⟨cfg.writes, Nat.le_refl _, h.1⟩
-  | some h =>
-    exact data_prefix_aux safe r
-where
-  data_prefix_aux {cfg : Cfg} (safe : cfg.Safe) {s : State} (r : Reachable cfg s) :
-      ∃ k, k ≤ cfg.writes ∧ s.data = List.range k := by
-    induction r with
-    | init => exact ⟨0, Nat.zero_le _, rfl⟩
-    | step r' st ih =>
-      have inv := inv_reachable safe r'
-      cases st with
-      | write i k hpc hk =>
-        have h := inv.body_st i k hpc
-        exact ⟨k + 1, hk, by simp [h.2.1, List.range_succ]⟩
-      | _ => exact ih
+  induction r with
+  | init => exact ⟨0, Nat.zero_le _, rfl⟩
+  | step r' st ih =>
+    have inv := inv_reachable safe r'
+    cases st with
+    | write i k hpc hk =>
+      have h := inv.body_st i k hpc
+      exact ⟨k + 1, hk, by simp [h.2.1, List.range_succ]⟩
+    | _ => exact ih
 
 /-- Whoever passes the fast-path check observes the complete structure: the flag is set only when
 the body has completed. -/
